@@ -110,4 +110,22 @@ theorem inertia_setting_applies {K : Type} [Num K] (w : World K) (wt : K → K) 
   have hk : ("inertia" == "peal_speed") = false := by decide
   simp [hk, h0, h1]
 
+/-- **An expectation is used once**: the strike that matches it removes it, so a later strike of the same
+bell on the same stroke that arrives before the next expectation has been set (rung more than a row
+ahead) is "unexpected" and (`unexpected_stroke_ignored`) changes nothing. -/
+theorem expectation_used_once (r : Reg K) (wt : K → K) (reg : List (K × K × K) → K × K) (bell : Nat)
+    (hand : Bool) (t : K) :
+    (r.onBellRing wt reg bell hand t).lookupExpected bell hand = none := by
+  unfold Reg.onBellRing
+  cases hq : r.lookupExpected bell hand with
+  | none => simpa using hq
+  | some p =>
+    obtain ⟨row, place⟩ := p
+    simp only []
+    unfold Reg.lookupExpected
+    rw [List.find?_eq_none.mpr]
+    intro x hx
+    simp only [List.mem_filter] at hx
+    simpa using hx.2
+
 end Wheatley.C13
